@@ -190,9 +190,23 @@ class Pipeline:
         d = w.sole_binding(self.grid_name)
         if d is None or d[0] != 'value':
             raise AnalysisError(f'from_visibility: `{self.grid_name}` is not assigned once')
-        self.grid_def = w.expand(d[1], self.ren)
         self.grid_def_order = d[2]
-        self.agent_expr = w.expand(self.ret_agent, self.ren, stop=[self.grid_name])
+        # geometric expressions are read from the function as written when possible: helper
+        # calls inside them are evaluated denotationally by GeoInterp, which is more precise
+        # than the statement-level inlining of the view
+        raw = walk_function(f.node)
+        rd = raw.sole_binding(self.grid_name)
+        rr = [e for e in raw.events if e.kind == 'return' and e.value is not None]
+        if rd is not None and rd[0] == 'value' and len(rr) == 1 and \
+                isinstance(rr[0].value, ast.Call):
+            rk = {k.arg: k.value for k in rr[0].value.keywords}
+            ra = rr[0].value.args[1] if len(rr[0].value.args) > 1 else rk.get('agent')
+            self.grid_def = raw.expand(rd[1], self.ren)
+            self.agent_expr = raw.expand(ra, self.ren, stop=[self.grid_name]) \
+                if ra is not None else w.expand(self.ret_agent, self.ren, stop=[self.grid_name])
+        else:
+            self.grid_def = w.expand(d[1], self.ren)
+            self.agent_expr = w.expand(self.ret_agent, self.ren, stop=[self.grid_name])
         # visibility call
         self.vis_calls = [e for e in w.events if e.kind == 'call'
                           and src(e.node.func) == 'visibility_function']
